@@ -285,6 +285,7 @@ func oneQuery(run *vlib.Run, sd *gen.SchemaDesc, mono *graphql.Schema, p *partit
 	}
 	o.UnionSecondFragment = os.Getenv("C06_NO_UNION2") == ""
 	o.UnionSelfFragment = true
+	o.AvoidTypes = map[string]bool{"Bag": true} // Bag is not federated
 	if os.Getenv("C06_NO_UNIONS") != "" {
 		o.NoUnions = true
 	}
